@@ -30,9 +30,15 @@ def run_property(prop, tier, seed, replay=None, root=None, write=True, out=sys.s
         print('ANALYSIS-ERROR property=%s %s' % (prop, e), file=out)
         # an analysis that could not be completed has no "holds" verdict; what it had already
         # established as a violation (a named construct) stands
-        from .report import VIOLATION
-        if ctx is None or not any(o.verdict == VIOLATION for o in ctx.obs):
+        # (a named construct: a witnessed report) stands; "not what the rule expects" reports of an
+        # analysis that did not finish are no evidence
+        from .report import VIOLATION, UNDECIDED
+        if ctx is None or not any(o.verdict == VIOLATION and o.witness for o in ctx.obs):
             return 2
+        for o in ctx.obs:
+            if o.verdict == VIOLATION and not o.witness:
+                o.verdict = UNDECIDED
+                o.reason = 'no verdict: the analysis stopped early [%s]' % o.reason
         ctx.undecided('analysis-incomplete', ('bisturi', '<analysis>'), 'the analysis stopped early', str(e), 0)
     except Exception:
         print('ANALYSIS-ERROR property=%s internal error in the checker:' % prop, file=out)
